@@ -780,23 +780,24 @@ func (c *candidateBase) marshalExtensions() string {
 
 // Equal returns true if the candidate extensions are equal.
 func (c *candidateBase) extensionsEqual(other []CandidateExtension) bool {
+	own := c.Extensions()
 	freq1 := make(map[CandidateExtension]int)
 	freq2 := make(map[CandidateExtension]int)
 
-	if len(c.extensions) != len(other) {
+	if len(own) != len(other) {
 		return false
 	}
 
-	if len(c.extensions) == 0 {
+	if len(own) == 0 {
 		return true
 	}
 
-	if len(c.extensions) == 1 {
-		return c.extensions[0] == other[0]
+	if len(own) == 1 {
+		return own[0] == other[0]
 	}
 
-	for i := range c.extensions {
-		freq1[c.extensions[i]]++
+	for i := range own {
+		freq1[own[i]]++
 		freq2[other[i]]++
 	}
 
